@@ -66,6 +66,16 @@ def entries(dim: int | None = None):
         ("gen_laplacian_filter_kernel_3d", {"filter_order": o, "filter_type": t, "field_type": f, "buffers": True})
         for o in (1, 2, 3) for t in ("multiplicative", "convolution") for f in ft
     ]
+    # the simulators pass fixed_grid_size=<grid shape tuple> to most generators: same kernels, different
+    # wrapper code paths may depend on it
+    fixed = []
+    for name, opts in out:
+        if name.startswith(("gen_advection_timestep", "gen_diffusion_timestep", "gen_advection_flux", "gen_diffusion_flux", "gen_curl", "gen_outplane", "gen_inplane",
+                            "gen_update_vorticity", "gen_elementwise_cross", "gen_divergence", "gen_vorticity_stretching", "gen_elementwise_sum", "gen_add_fixed_val", "gen_laplacian_filter", "gen_penalise")):
+            if opts.get("grid") == "offset" or opts.get("reset_ghost_zone") is False:
+                continue
+            fixed.append((name, {**opts, "fixed": True}))
+    out += fixed
     if dim is not None:
         out = [e for e in out if e[0].endswith(f"_{dim}d")]
     return out
@@ -80,7 +90,7 @@ def instantiate(name: str, opts: dict, dtype, num_threads=False, shape=None, dx=
     import sopht.numeric.eulerian_grid_ops as spne
 
     gen = getattr(spne, name)
-    kw = {k: v for k, v in opts.items() if k not in ("grid", "buffers", "midstep")}
+    kw = {k: v for k, v in opts.items() if k not in ("grid", "buffers", "midstep", "fixed")}
     aux = {}
     d = gen_dim(name)
     if shape is None:
@@ -106,6 +116,8 @@ def instantiate(name: str, opts: dict, dtype, num_threads=False, shape=None, dx=
         aux["midstep_buffer_vector_field"] = np.zeros((3, *shape), dtype=dtype)
         kw["midstep_buffer_vector_field"] = aux["midstep_buffer_vector_field"]
     aux["shape"] = shape
+    if opts.get("fixed"):
+        kw["fixed_grid_size"] = tuple(shape)
     fn = gen(real_t=dtype, num_threads=num_threads, **kw)
     return fn, aux
 
